@@ -26,6 +26,21 @@
                  (0 = not found, -1 = panic): constructed / from a map literal in source
      bigr[x] sbigr[x]  the same with the keys set in reverse index order
 
+   Values with a history.  A universe value may carry two tags that the documented order
+   ignores (GrolOrder!Cmp reads t and v only) and that tell the harness HOW and WHEN to make it:
+     how  the construction history of a container with the same content:
+            "shrunk"   a map that held 5 more entries which were deleted again (del)
+            "dupkeys"  a map written with its first pair repeated four times before the pairs
+            "slice"    an array taken as a slice of a longer array
+          (a value and its differently built twin are the same value: == both ways, cmp = 0)
+     ep   the epoch of the session in which the value is created.  Before the values of epoch
+          e > 0 are made the session goes through event HistoryEvents[e] - a top level
+          function is redefined, a constant is deleted and bound again, many functions are
+          defined; each followed by a function call - and the table is recorded at the end, so
+          it relates values made before an event with values made after it (the same source
+          again, and other values).  The laws are the laws: a value does not change its place
+          in the order by being older.
+
    The laws (the statement of C12; `Broken(R, x, y)` lists every broken instance at (x, y)):
      total          nothing panicked, every operator answered with a boolean (the other laws
                     judge answers: a law is stated for a pair where the observations it
@@ -38,7 +53,10 @@
      operators      x<y <=> y>x,  x<=y <=> ~(x>y),  x>=y <=> ~(x<y),  x!=y <=> ~(x==y), and
                     all of them are the one order of cmp (the order behind the operators
                     and the order behind map keys are the same order)
-     ==             an equivalence that implies cmp = 0 and holds between a value and its copy
+     ==             an equivalence that implies cmp = 0 and holds between a value and its copy:
+                    the independently built copy, and every other member of the universe
+                    that is the same value (same_value_equal: built differently, or in
+                    another epoch)
      min / max      return one of their arguments, a smallest / largest one
      map keys       y is found under key x exactly when cmp[x][y] = 0; in a map holding all
                     values, looking up x gives a value that was stored under a key
@@ -55,11 +73,14 @@
      Mode = "export"  one trivial state; the ASSUMEs emit OrderUniverse (one "universe" line
                       per value) and, as one "model_table" line, the complete table that the
                       documented order GrolOrder!Cmp / Equals / Min2 / Max2 / MapSet produces
-                      on it (ModelBatch).
+                      on it (ModelBatch); and the HistoryUniverse with its events
+                      ("history" lines).
      Mode = "table"   the tables come from order_table.ndjson, one line per batch:
                         src = "model"    the exported model table: the documented order itself
                                          is model-checked against the laws (must be clean);
                         src = "curated"  what the real code answered on OrderUniverse;
+                        src = "history"  what it answered on HistoryUniverse (values of
+                                         several epochs of one session);
                         src = "random"   what it answered on a generated universe `u`.
                       For the recorded batches every entry at (x, y) is also compared with
                       what GrolOrder says for that pair; a difference is emitted as law
@@ -90,6 +111,8 @@ M(p)  == [t |-> "map",   v |-> MapOf(p)]
 Fn(src, txt) == [t |-> "func", v |-> txt, src |-> src]   \* src: grol source, v: its normalised text
 Qu(src, txt) == [t |-> "quote", v |-> txt, src |-> src]  \* quoted code, v: as the interpreter prints it
 Ext(name)    == [t |-> "ext", v |-> name, src |-> name]  \* a built-in function value
+Built(a, h)  == [t |-> a.t, v |-> a.v, how |-> h]        \* the same container, built differently
+At(a, e)     == a @@ [ep |-> e]                          \* the same value, made in epoch e
 
 P53    == "9007199254740992"     \* 2^53
 P53p1  == "9007199254740993"     \* 2^53 + 1: not a float64
@@ -126,7 +149,15 @@ UniverseQuick == <<
   \* two different functions and a second evaluation of the first
   F1, F2, F1,
   \* quoted code and built-in functions are values as well
-  Qu("quote(1+2)", "quote(1 + 2)"), Qu("quote(x)", "quote(x)"), Ext("sin") >>
+  Qu("quote(1+2)", "quote(1 + 2)"), Qu("quote(x)", "quote(x)"), Ext("sin"),
+  \* the same containers with another construction history (see `how`)
+  Built(M(<< <<I("1"), I("1")>>, <<I("2"), I("2")>> >>), "shrunk"),
+  Built(M(<< <<I("1"), I("1")>> >>), "dupkeys"),
+  Built(M(<<>>), "shrunk"),
+  Built(M(<< <<S("a"), A(<<I("1")>>)>> >>), "shrunk"),
+  Built(A(<<I("1"), I("2")>>), "slice"),
+  A(<<Built(M(<< <<I("1"), I("1")>> >>), "shrunk")>>), A(<<M(<< <<I("1"), I("1")>> >>)>>),
+  M(<< <<Built(M(<< <<I("1"), I("1")>> >>), "dupkeys"), I("1")>> >>), M(<< <<M(<< <<I("1"), I("1")>> >>), I("1")>> >>) >>
 
 Range9(last) == <<I("1"), I("2"), I("3"), I("4"), I("5"), I("6"), I("7"), I("8"), I(last)>>
 Map5(last) == << <<I("1"), I("1")>>, <<I("2"), I("2")>>, <<I("3"), I("3")>>, <<I("4"), I("4")>>, <<I("5"), I(last)>> >>
@@ -149,19 +180,46 @@ UniverseMore == <<
   M(<< <<M(<<>>), I("1")>> >>), M(<< <<I("1"), A(<<I("1")>>)>> >>), M(<< <<I("1"), A(<<F(FOne)>>)>> >>),
   M(<< <<I(P53p1), I("1")>> >>), M(<< <<F(F53), I("1")>> >>), M(<< <<I(P53), I("1")>> >>),
   M(Map5("5")), M(Map5("6")),                   \* more than 4 entries: the big representation
-  F3, Ext("cos"), A(<<Qu("quote(x)", "quote(x)")>>) >>
+  F3, Ext("cos"), A(<<Qu("quote(x)", "quote(x)")>>),
+  Built(M(<< <<I("1"), I("2")>> >>), "shrunk"), Built(M(<< <<S("a"), I("1")>> >>), "dupkeys"),
+  Built(M(<< <<F(FOne), I("1")>> >>), "shrunk"), Built(M(<< <<I("1"), A(<<I("1")>>)>> >>), "dupkeys"),
+  Built(A(<<>>), "slice"), Built(A(<<I("1")>>), "slice"), Built(A(<<A(<<I("1")>>)>>), "slice"),
+  M(<< <<I("1"), Built(M(<< <<I("1"), I("1")>> >>), "shrunk")>> >>), M(<< <<I("1"), M(<< <<I("1"), I("1")>> >>)>> >>) >>
 
 OrderUniverse == IF Tier = "quick" THEN UniverseQuick ELSE UniverseQuick \o UniverseMore
 
-\* generated values arrive with their map pairs in generation order: sort them as a map literal would
+\* ------------------------------------------------------------------ values of several epochs
+\* fresh functions: texts that occur nowhere else
+Fresh(k) == Fn(StrCat(StrCat("func(x){x*", ToString(k + 1)), "}"), StrCat("x=>x*", ToString(k + 1)))
+
+\* event HistoryEvents[e] happens before the values of epoch e are made (each is followed by a call)
+HistoryEvents == <<"redefine_function", "rebind_constant", "many_definitions">>
+
+HistoryCore == << F1, F2, F3, A(<<F1>>), M(<< <<F2, I("1")>> >>), Qu("quote(x)", "quote(x)"), Ext("sin"),
+                  I("1"), S("a"), M(<< <<I("1"), I("1")>> >>) >>
+HistoryFuncs == << F1, F2, F3, A(<<F2>>) >>
+NFresh == IF Tier = "quick" THEN 6 ELSE 40
+
+HistoryUniverse ==
+     [k \in 1..Len(HistoryCore) |-> At(HistoryCore[k], 0)]
+  \o [k \in 1..NFresh |-> At(Fresh(k), 1)]                      \* other functions first ..
+  \o [k \in 1..Len(HistoryCore) |-> At(HistoryCore[k], 1)]      \* .. then the same sources again
+  \o [k \in 1..3 |-> At(Fresh(NFresh + k), 2)]
+  \o [k \in 1..Len(HistoryFuncs) |-> At(HistoryFuncs[k], 2)]
+  \o [k \in 1..Len(HistoryFuncs) |-> At(HistoryFuncs[Len(HistoryFuncs) + 1 - k], 3)]
+  \o [k \in 1..3 |-> At(Fresh(NFresh + 3 + k), 3)]
+
+\* the value itself: tags dropped, the pairs of a map sorted as a map literal would (generated
+\* values arrive with their pairs in generation order)
 RECURSIVE Norm(_)
 Norm(v) ==
   CASE v.t = "arr" -> [t |-> "arr", v |-> [k \in 1..Len(v.v) |-> Norm(v.v[k])]]
     [] v.t = "map" -> [t |-> "map", v |-> MapOf([k \in 1..Len(v.v) |-> <<Norm(v.v[k][1]), Norm(v.v[k][2])>>])]
-    [] OTHER -> v
+    [] v.t = "nil" -> [t |-> "nil"]
+    [] OTHER -> [t |-> v.t, v |-> v.v]
 
-\* structural identity (records of different types are never compared field by field)
-Same(a, c) == a.t = c.t /\ (IF a.t \in {"func", "quote", "ext"} THEN a.v = c.v ELSE a = c)
+\* structural identity of two values (records of different types are never compared field by field)
+Same(a, c) == a.t = c.t /\ Norm(a) = Norm(c)
 
 \* ------------------------------------------------------------------ the model's table
 Bit(p) == IF p THEN 1 ELSE 0
@@ -209,6 +267,9 @@ ASSUME Mode = "export" =>
          /\ \A k \in 1..Len(OrderUniverse) :
                EmitLine(ToJson([law |-> "universe", x |-> k, val |-> OrderUniverse[k]]))
          /\ EmitLine(ToJson([law |-> "model_table", table |-> ModelBatch(OrderUniverse)]))
+         /\ \A k \in 1..Len(HistoryUniverse) :
+               EmitLine(ToJson([law |-> "history", x |-> k, val |-> HistoryUniverse[k]]))
+         /\ EmitLine(ToJson([law |-> "history_events", events |-> HistoryEvents]))
 
 \* table: the model and curated batches are about exactly this spec's universe
 ASSUME \A k \in 1..Len(Batches) :
@@ -216,6 +277,9 @@ ASSUME \A k \in 1..Len(Batches) :
          /\ Batches[k].src \in {"model", "curated"} =>
                /\ Batches[k].n = Len(OrderUniverse)
                /\ \A e \in 1..Batches[k].n : ToJson(Batches[k].u[e]) = ToJson(OrderUniverse[e])
+         /\ Batches[k].src = "history" =>
+               /\ Batches[k].n = Len(HistoryUniverse)
+               /\ \A e \in 1..Batches[k].n : ToJson(Batches[k].u[e]) = ToJson(HistoryUniverse[e])
 
 \* ------------------------------------------------------------------ the laws
 Sgn(c) == IF c < 0 THEN -1 ELSE IF c > 0 THEN 1 ELSE 0
@@ -361,6 +425,15 @@ ModelAt(a, c) ==
       mn |-> IF Same(a, c) THEN 3 ELSE IF cb < 0 THEN 2 ELSE 1,
       mx |-> IF Same(a, c) THEN 3 ELSE IF cb > 0 THEN 2 ELSE 1]
 
+\* --- a value and another member of the universe that is the same value (a twin built
+\* differently, a copy made in another epoch, a duplicate): equal and equivalent, everywhere
+EqFields == <<"eq", "teq", "peq", "leq", "req">>
+SameValueAt(R, k, p, q) ==
+  IF p = q \/ ~Same(R.u[p], R.u[q]) THEN <<>>
+  ELSE One(R.cmp[p][q] \in {0, 99}, "same_value_equal", k, p, q, "cmp")
+       \o Flat([f \in 1..Len(EqFields) |->
+                  One(R[EqFields[f]][p][q] \in {1, 8, 9}, "same_value_equal", k, p, q, EqFields[f])], 1)
+
 AllFields == MatrixFields
 Disagreements(k, p, q) ==
   LET R == Batches[k] IN
@@ -382,7 +455,7 @@ Init == IF Mode = "export"
 
 Check ==
   /\ nb = -1
-  /\ LET br == Broken(Batches[b], b, x, y)
+  /\ LET br == Broken(Batches[b], b, x, y) \o SameValueAt(Batches[b], b, x, y)
          dg == Disagreements(b, x, y)
      IN /\ nb' = Len(br)
         /\ \A e \in 1..Len(br) : EmitLine(ToJson(br[e]))
